@@ -20,6 +20,10 @@ R15.4 the duplicate shortcut: a sequence is dropped as a duplicate only when NO 
       positive, off_diag enumerating every i != j.
 R15.6 a distance is filed under the names of the sequences it was computed from (conversion loop by name, shared
       subscripts in run()).
+R15.7 constructor options of the calculators are set after the base constructor (which resets them).
+R15.8 PartialTree.join edits only copies of the receiver's matrix / node / tip lists.
+R15.9 a looked-up distance of 0.0 is not treated as missing (phylo/util.py).
+R15.10 DistanceMatrix.__getitem__ does not write to the matrix it reads (known finding).
 R15.5 closed forms small enough to decide symbolically: the proportion different is (total - trace) / total,
       JC69 is c * log(a + b * p) with (a, b, c) = (1, -4/3, -3/4) and is refused for p >= 3/4 -- extracted
       by folding the function body to an affine form in p with exact rationals (not by running it).
@@ -349,8 +353,111 @@ def r15_6(chk):
     chk.floor("R15.6", 1, "conversion loop")
 
 
+def r15_7(chk):
+    chk.rule("R15.7", "a calculator's constructor options survive construction: in every subclass of _PairwiseDistance no attribute that the base constructor (re)sets -- notably _func_args, which it resets to [] -- is assigned BEFORE the call of super().__init__; set earlier, the option (LogDet's use_tk_adjustment, TN93's coordinates) is wiped and the default formula is used silently")
+    m = chk.repo.module(FD)
+    base = m.cls("_PairwiseDistance")
+    binit = base.methods.get("__init__")
+    if binit is None:
+        raise AnalysisError("_PairwiseDistance.__init__ not found")
+    base_sets = {t.attr for st in ast.walk(binit) if isinstance(st, ast.Assign) for t in st.targets if isinstance(t, ast.Attribute) and isinstance(t.value, ast.Name) and t.value.id == "self"}
+    n = 0
+    for ci in chk.repo.subclasses_of(base):
+        init = ci.methods.get("__init__")
+        if init is None:
+            continue
+        sup = [i for i, st in enumerate(init.body) if any(isinstance(c, ast.Call) and isinstance(c.func, ast.Attribute) and c.func.attr == "__init__" and "super" in norm(c.func.value) for c in ast.walk(st))]
+        if not sup:
+            continue
+        n += 1
+        early = []
+        for st in init.body[: sup[0]]:
+            for x in ast.walk(st):
+                if isinstance(x, ast.Assign):
+                    for t in x.targets:
+                        if isinstance(t, ast.Attribute) and isinstance(t.value, ast.Name) and t.value.id == "self" and t.attr in base_sets:
+                            early.append(x)
+        chk.decide(not early, "R15.7", key(ci.module, f"{ci.name}.__init__", "options set after the base constructor"), ci.module.loc(early[0] if early else init), "nothing the base constructor resets is assigned before super().__init__", f"`{norm(early[0])[:60] if early else ''}` runs before super().__init__, which assigns self.{early[0].targets[0].attr if early else ''} again: the constructor option is lost and the calculator silently uses the default")
+    chk.floor("R15.7", 2, "subclasses with their own constructor")
+
+
+def r15_8(chk):
+    chk.rule("R15.8", "joining two neighbours never edits the partial tree it starts from: in PartialTree.join every container taken from the receiver and then edited in place (the distance matrix d, nodes, tips) is bound from an unconditional copy (self.d.copy(), self.nodes[:], list(...)) -- with several candidate joins kept (keep > 1, or dkeep) the same parent is extended more than once and must still hold its own distances")
+    m = chk.repo.module("phylo/nj.py")
+    q = "PartialTree.join"
+    fn = m.func(q)
+    binds = {}
+    for st in walk_no_nested(fn):
+        if isinstance(st, ast.Assign) and len(st.targets) == 1 and isinstance(st.targets[0], ast.Name) and any(isinstance(x, ast.Attribute) and isinstance(x.value, ast.Name) and x.value.id == "self" for x in ast.walk(st.value)):
+            binds.setdefault(st.targets[0].id, st)  # first binding
+    edited = set()
+    for x in walk_no_nested(fn):
+        if isinstance(x, (ast.Assign, ast.AugAssign)):
+            for t in (x.targets if isinstance(x, ast.Assign) else [x.target]):
+                if isinstance(t, ast.Subscript):
+                    b = t
+                    while isinstance(b, ast.Subscript):
+                        b = b.value
+                    if isinstance(b, ast.Name):
+                        edited.add(b.id)
+        if isinstance(x, ast.Call) and isinstance(x.func, ast.Attribute) and isinstance(x.func.value, ast.Name) and x.func.attr in ("pop", "append", "remove", "insert", "sort", "reverse", "fill", "extend"):
+            edited.add(x.func.value.id)
+    n = 0
+    for nm in sorted(edited & set(binds)):
+        st = binds[nm]
+        v = st.value
+        copying = (isinstance(v, ast.Call) and ((isinstance(v.func, ast.Attribute) and v.func.attr in ("copy", "astype", "tolist")) or (call_name(v) or "").split(".")[-1] in ("list", "array", "deepcopy", "copy", "set", "dict", "tuple"))) or (isinstance(v, ast.Subscript) and isinstance(v.slice, ast.Slice) and v.slice.lower is None and v.slice.upper is None and v.slice.step is None)
+        n += 1
+        chk.decide(copying, "R15.8", key(m, q, f"{nm} is a private copy"), m.loc(st), f"`{norm(st)}`", f"`{norm(st)[:70]}` can be the receiver's own {nm}, which join() then edits in place: a partial tree that is extended by a second pair (gnj with keep > 1 or dkeep >= 1) has had its distances overwritten by the first join")
+    chk.floor("R15.8", 3, "d, nodes, tips")
+
+
+def r15_9(chk):
+    chk.rule("R15.9", "a distance of zero is a distance: in phylo/util.py a value looked up in a distance dict (bound from `.get(...)`) is never selected by truth value (`v1 or v2`, `if v:`) -- identical sequences are at distance 0.0, and `v1 or v2` answers None for a one-sided (a, b): 0.0, which becomes NaN in the matrix and makes neighbour joining return all-zero branch lengths without any error")
+    m = chk.repo.module("phylo/util.py")
+    n = 0
+    for q, fn in m.all_functions():
+        looked = {st.targets[0].id for st in walk_no_nested(fn) if isinstance(st, ast.Assign) and isinstance(st.targets[0], ast.Name) and isinstance(st.value, ast.Call) and isinstance(st.value.func, ast.Attribute) and st.value.func.attr == "get"}
+        if not looked:
+            continue
+        n += 1
+        bad = []
+        for x in walk_no_nested(fn):
+            if isinstance(x, ast.BoolOp) and any(isinstance(v, ast.Name) and v.id in looked for v in x.values[:-1] if not isinstance(v, ast.Compare)):
+                # `v1 is None or v2 is None` are Compare nodes and fine; bare names in and/or are truth tests
+                bad.append(x)
+            if isinstance(x, (ast.If, ast.IfExp)) and isinstance(x.test, ast.Name) and x.test.id in looked:
+                bad.append(x.test)
+            if isinstance(x, ast.UnaryOp) and isinstance(x.op, ast.Not) and isinstance(x.operand, ast.Name) and x.operand.id in looked:
+                bad.append(x)
+        chk.decide(not bad, "R15.9", key(m, q, "looked-up distances selected by `is None`"), m.loc(bad[0] if bad else fn), f"{sorted(looked)} only compared with None / each other", f"`{norm(bad[0])[:50] if bad else ''}` chooses by truth value: a distance of 0.0 counts as missing")
+    chk.floor("R15.9", 1, "lookup_symmetric_dict")
+
+
+def r15_10(chk):
+    chk.rule("R15.10", "reading a distance matrix does not change it: DistanceMatrix.__getitem__ assigns no attribute of the receiver or of its template (the template is shared state: after one slice the original matrix's names are arrays and quick_tree() on a perfectly additive matrix raises)")
+    m = chk.repo.module(FD)
+    q = "DistanceMatrix.__getitem__"
+    fn = m.func(q)
+    bad = []
+    for st in walk_no_nested(fn):
+        if isinstance(st, (ast.Assign, ast.AugAssign)):
+            for t in (st.targets if isinstance(st, ast.Assign) else [st.target]):
+                b = t
+                while isinstance(b, (ast.Attribute, ast.Subscript)):
+                    b = b.value
+                if isinstance(t, (ast.Attribute, ast.Subscript)) and isinstance(b, ast.Name) and b.id == "self":
+                    bad.append(st)
+    chk.decide(not bad, "R15.10", key(m, q, "no write to the receiver"), m.loc(bad[0] if bad else fn), "no attribute of self is assigned", f"`{norm(bad[0])[:70] if bad else ''}` edits the matrix being read: dm[['a', 'b']] leaves dm.template.names as numpy arrays, and dm.quick_tree() then raises ValueError")
+    chk.floor("R15.10", 1, "DistanceMatrix.__getitem__")
+
+
 def run(chk):
     r15_1(chk)
+    r15_9(chk)
+    r15_10(chk)
+    r15_7(chk)
+    r15_8(chk)
     r15_6(chk)
     r15_2(chk)
     r15_3(chk)
